@@ -1,6 +1,7 @@
 package main
 
 import (
+	"fmt"
 	"go/constant"
 	"go/token"
 	"go/types"
@@ -245,7 +246,87 @@ func edgeAtoms(b *ssa.BasicBlock, succ int) []condAtom {
 	if !ok {
 		return nil
 	}
-	return atomsOf(ifi.Cond, succ == 0)
+	out := atomsOf(ifi.Cond, succ == 0)
+	// a condition hoisted into a named boolean (`ok := a || b; if !ok`) is a
+	// phi: add what its truth value implies
+	var extra []condAtom
+	for _, a := range out {
+		if ph, ok := a.V.(*ssa.Phi); ok && a.True != 0 {
+			extra = append(extra, phiImpliedAtoms(ph, a.True == 1, 0)...)
+		}
+	}
+	return append(out, extra...)
+}
+
+// phiImpliedAtoms: the condition atoms common to every way the boolean phi
+// can take the given truth value. Edges carrying the opposite constant are
+// excluded; for each remaining edge: the atoms of the edge's value for that
+// truth, and the atoms of the branch edges on the chain of single
+// predecessors leading to the edge (they hold whenever control arrives that
+// way). Must-information: sound to add to the atoms of the testing edge.
+func phiImpliedAtoms(ph *ssa.Phi, truth bool, depth int) []condAtom {
+	if bt, ok := ph.Type().Underlying().(*types.Basic); !ok || bt.Kind() != types.Bool || depth > 2 {
+		return nil
+	}
+	keyOf := func(a condAtom) string {
+		return fmt.Sprintf("%p|%d|%d|%v|%p|%p", a.V, a.Nil, a.True, a.Op, a.Const, a.Other)
+	}
+	var acc map[string]condAtom
+	for k, e := range ph.Edges {
+		if c, ok := e.(*ssa.Const); ok && c.Value != nil && c.Value.Kind() == constant.Bool {
+			if constant.BoolVal(c.Value) != truth {
+				continue
+			}
+		}
+		here := map[string]condAtom{}
+		if _, isConst := e.(*ssa.Const); !isConst {
+			for _, a := range atomsOf(e, truth) {
+				here[keyOf(a)] = a
+				if q, ok := a.V.(*ssa.Phi); ok && a.True != 0 && q != ph {
+					for _, a2 := range phiImpliedAtoms(q, a.True == 1, depth+1) {
+						here[keyOf(a2)] = a2
+					}
+				}
+			}
+		}
+		cur, next := ph.Block().Preds[k], ph.Block()
+		for d := 0; d < 6 && cur != nil; d++ {
+			if len(cur.Instrs) > 0 {
+				if ifi, ok := cur.Instrs[len(cur.Instrs)-1].(*ssa.If); ok && cur.Succs[0] != cur.Succs[1] {
+					for j, sc := range cur.Succs {
+						if sc == next {
+							for _, a := range atomsOf(ifi.Cond, j == 0) {
+								here[keyOf(a)] = a
+							}
+						}
+					}
+				}
+			}
+			if len(cur.Preds) != 1 {
+				break
+			}
+			next, cur = cur, cur.Preds[0]
+		}
+		if acc == nil {
+			acc = here
+		} else {
+			for key := range acc {
+				if _, ok := here[key]; !ok {
+					delete(acc, key)
+				}
+			}
+		}
+	}
+	var keys []string
+	for key := range acc {
+		keys = append(keys, key)
+	}
+	sort.Strings(keys)
+	var out []condAtom
+	for _, key := range keys {
+		out = append(out, acc[key])
+	}
+	return out
 }
 
 func atomsOf(cond ssa.Value, truth bool) []condAtom {
